@@ -336,3 +336,8 @@ def run(R) -> None:
     R.rule('C11.R3', lambda: r3_class_constants(R))
     R.rule('C11.R4', lambda: r4_mutable_defaults(R))
     R.rule('C11.R5', lambda: r5_globals_never_written(R))
+
+
+def run_thorough(R) -> None:
+    from rules.common import thorough_compositions
+    thorough_compositions(R, 'C11.T1', ['copy', '__copy__', '__deepcopy__', '__init__'])
